@@ -653,3 +653,17 @@ _ADDED5 = {
 }
 for _k, _v in _ADDED5.items():
     DOC[_k]['level'] += ' ' + _v
+
+# sixth session: specification -> code replay (spec/*Gen.tla), slice-heap model
+_ADDED6 = {
+    'C11': 'Specification -> code: ScannerGen.tla runs the abstract Scanner with a history variable; TLC prints the history of every transition of its complete state graph (contents up to 4 / 6 over {x, LF, CR}; VIEW hides the history) and random behaviours of depth 40 (-simulate, seeded), each step with the observation the model predicts; verifdrv steps the real scanner through them and ScannerTrace / Held.ExpFails reject a step the implementation does not follow.',
+    'C17': 'Specification -> code: CharMapGen.tla explores the graph of distinct map VALUES (the function probe -> reference is the VIEW) reachable within 2 / 3 registrations and prints the history of every operation from every such value, with the predicted look-ups, for the map itself, a tokenizer\'s state table (thorough) and the word class; plus random histories of 12 registrations.',
+    'C16': 'Specification -> code: SymbolTrieGen.tla explores (symbol table, input, cursor) for up to two registrations of symbols over {a,b}, each under one of two types, with inputs attached at any time, and prints the history of every registration and every read with the predicted type, text and cursor; plus random behaviours of depth 30 with up to 8 symbols.',
+    'C18': 'Specification -> code (clause b): CollectionsGen.tla explores every list of up to 3 / 4 entries over {a, A, b} (identities up to renaming are the VIEW) and prints the history of every operation - queries included - from every list, with the predicted list and result, for variable and function collections; plus random behaviours of depth 40.',
+    'C19': 'Specification -> code: ConcurrentEvalGen.tla prints every schedule of the model for three programs (2 and 3 evaluations), projected onto the accesses at which the recorder can hold a goroutine; the gated goroutines are released in those orders.',
+    'C20': 'Specification -> code: VariantHeapGen.tla explores the value model for up to 4 / 5 operations on three slots and the caller\'s list and prints the history of every transition with the type, payload and elements predicted for every slot. GoSlice.tla + VariantHeapImpl.tla model Variant.go\'s array part over a heap of backing arrays with ANY capacity chosen on growth; VariantHeapImplMC checks that it refines the value model for all sequences of 4 / 5 operations (the variant "orig" - clone/assign copying the slice header - is refuted in 4 steps).',
+}
+for _k, _v in _ADDED6.items():
+    DOC[_k]['level'] += ' ' + _v
+    DOC[_k]['technique'] += '; replay of TLC-generated behaviours of the abstract model (transition cover + simulation) on the real code'
+DOC['C20']['technique'] += '; TLC refinement check of a slice-heap model (VariantHeapImplMC)'
